@@ -40,6 +40,10 @@ its own PairingConfig and a recording delegate driven by two simulated users. Mo
             pairing; legacy: the LTK today's Peripheral distributed in the last pairing, with its EDIV / Rand). Keys:
             reconnect/bond-history/<clause>/<last bond>-after-<the one before>/<merging-store|replacing-store|
             stores-differ>
+  giveup    the APPLICATION that called pair() stops waiting (asyncio.wait_for(pair(), t) expiring, or its task cancelled
+            after a few loop turns) while a user is still looking at a prompt; the SMP exchange goes on without it. After
+            every answer was given both sides must still end the same way: both report 'pairing' and hold the keys (all the
+            success oracles run), or both report 'pairing_failure' and hold none; keys carry the suffix /caller-gave-up
   again     further pairings on the SAME connection (after a refused/failed one, after a completed one): judged
             by the same oracles; keys carry the suffix /again-after-<previous outcome>
 """
@@ -61,7 +65,10 @@ RULE = ('one case = one pairing of two independently configured devices (plus re
         'every negative answer / every tamperable PDU x sender; ptable/srtable: the 5x5x2x4 table again with the link '
         'Peripheral as SMP initiator and via Security Request; think: every model x {legacy, SC} x initiator link role '
         'x every answer (honest + each refusal by either user) x 5 think-time patterns (answering user late by '
-        'seconds / by loop turns, the other user late, both late); again: every model x initiator x (X then honest, '
+        'seconds / by loop turns, the other user late, both late); giveup: every model x {legacy, SC} x initiator link role x '
+        '5 patterns of who is slow (responder\'s user, the initiator\'s own, both; seconds / loop turns) with the caller of '
+        'pair() giving up earlier (wait_for expiring after 0.05-2 s, task cancelled after 2-34 loop turns) x (honest answers, '
+        'two refusals in turn); again: every model x initiator x (X then honest, '
         'honest then X, X then X then honest) on one connection; bondhist: 6 sequences of bond kinds (2-3 bonds) x link '
         'roles kept / swapped between the pairings x 5 store combinations (JsonKeyStore file, merging, memory, mixed) x '
         'order of the two reconnections, key distribution and SMP initiator per bond by enumeration, association '
@@ -107,6 +114,10 @@ MIN_EVENTS = {
               'late_refusal_cases': 350, 'refusal_with_late_peer_cases': 90, 'late_honest_answers_paired': 1300,
               'answers_given_after_think_time': 2800, 'not_encrypted_after_failure_checks': 1000,
               'further_attempts_on_same_connection': 450,
+              'caller_gave_up_cases': 250, 'caller_gave_up_while_exchange_running': 200,
+              'caller_gave_up_while_exchange_running_legacy': 80, 'caller_gave_up_while_exchange_running_sc': 80,
+              'caller_gave_up_then_paired_both': 60, 'caller_gave_up_then_failed_both': 60,
+              'caller_gave_up_after-seconds': 150, 'caller_gave_up_after-loop-turns': 60,
               # bond histories on one store
               'bond_history_cases': 90, 'bond_history_pairings': 200, 'bond_history_reconnect_checks': 150,
               'bond_history_shared_key_checks': 150, 'bond_history_latest_key_checks_sc': 100,
@@ -124,6 +135,10 @@ MIN_EVENTS = {
                  'late_refusal_cases': 3500, 'refusal_with_late_peer_cases': 900, 'late_honest_answers_paired': 9000,
                  'answers_given_after_think_time': 20000, 'not_encrypted_after_failure_checks': 8000,
                  'further_attempts_on_same_connection': 4500,
+                 'caller_gave_up_cases': 2500, 'caller_gave_up_while_exchange_running': 2000,
+                 'caller_gave_up_while_exchange_running_legacy': 800, 'caller_gave_up_while_exchange_running_sc': 800,
+                 'caller_gave_up_then_paired_both': 600, 'caller_gave_up_then_failed_both': 600,
+                 'caller_gave_up_after-seconds': 1500, 'caller_gave_up_after-loop-turns': 600,
                  'bond_history_cases': 720, 'bond_history_pairings': 1600, 'bond_history_reconnect_checks': 1200,
                  'bond_history_shared_key_checks': 1200, 'bond_history_latest_key_checks_sc': 800,
                  'bond_history_latest_key_checks_legacy': 320, 'bond_history_legacy-then-sc': 128,
@@ -164,6 +179,8 @@ def _base(kind, seed, **kw):
         'initiator': 'central',     # link role of the device whose application calls pair()
         'think': [0, 0],            # per device: time its user takes to answer a prompt (>0 virtual s, <0 loop turns)
         'attempts': [],             # further pairings on the SAME connection: [{'answers': ...}, ...]
+        'giveup': None,             # {'after': t}: the caller of pair() stops waiting after t (>0 virtual s: wait_for
+                                    # expires; <0 that many loop turns, then its task is cancelled)
     }
     c.update(kw)
     return c
@@ -373,6 +390,43 @@ def plan(tier, seed):
                             dio = [io[0], io[1]] if ci == 0 else [io[1], io[0]]
                             cases.append(_base('think', nxt(), io=dio, sc=[sc, sc], answers=answers(ak, dev),
                                                initiator=initiator, think=th, delay=rng2.choice([0, 1, 3]),
+                                               ikd=[rng2.choice([1, 3, 7]), 7], rkd=[7, rng2.choice([1, 3, 7])]))
+    # (7b) the application gives up waiting for pair() while the protocol continues: every model x {legacy, SC} x
+    #      initiator link role x who is slow (responder's user / initiator's own user / both; seconds / loop turns) x
+    #      (honest answers, two refusals in turn)
+    refusals = [(ak, role) for ak, role in answer_kinds() if ak != 'ok']
+    gidx = 0
+    for _rep in range(reps):
+        for sc in (False, True):
+            for mname, io in model_io.items():
+                for initiator in ('central', 'peripheral'):
+                    ci = 0 if initiator == 'central' else 1
+                    dio = [io[0], io[1]] if ci == 0 else [io[1], io[0]]
+                    for pattern in ('responder-slow-s', 'initiator-slow-s', 'both-slow-s', 'responder-slow-turns',
+                                    'both-slow-turns'):
+                        for which in range(3):
+                            gidx += 1
+                            ak, role = ('ok', 0) if which == 0 else refusals[(gidx + which * 4) % len(refusals)]
+                            dev = ci if role == 0 else 1 - ci
+                            th = [0, 0]
+                            if pattern == 'responder-slow-s':
+                                th[1 - ci] = rng2.choice([2.0, 9.0])
+                                after = rng2.choice([0.05, 0.5, 1.0])
+                            elif pattern == 'initiator-slow-s':
+                                th[ci] = rng2.choice([2.0, 9.0])
+                                after = rng2.choice([0.05, 0.5, 1.0])
+                            elif pattern == 'both-slow-s':
+                                th[ci], th[1 - ci] = rng2.choice([(4.0, 1.0), (1.0, 4.0), (3.0, 3.0)])
+                                after = rng2.choice([0.5, 2.0])
+                            elif pattern == 'responder-slow-turns':
+                                th[1 - ci] = -rng2.choice([55, 89, 144])
+                                after = -rng2.choice([2, 5, 13, 34])
+                            else:
+                                th[ci], th[1 - ci] = -rng2.choice([55, 89]), -rng2.choice([55, 144])
+                                after = -rng2.choice([3, 8, 21])
+                            cases.append(_base('giveup', nxt(), io=dio, sc=[sc, sc], answers=answers(ak, dev),
+                                               initiator=initiator, think=th, giveup={'after': after, 'pattern': pattern},
+                                               delay=rng2.choice([0, 0, 1, 3]),
                                                ikd=[rng2.choice([1, 3, 7]), 7], rkd=[7, rng2.choice([1, 3, 7])]))
     # (8) pairing again on the same connection: after a refused / failed pairing (the users try again), after a
     #     completed one (re-pairing), and twice in a row
@@ -874,7 +928,8 @@ def describe(case):
     return (f"io={IO_NAME[case['io'][0]]}/{IO_NAME[case['io'][1]]} sc={case['sc']} mitm={case['mitm']} "
             f"bonding={case['bonding']} ikd={case['ikd']} rkd={case['rkd']} start={case['start']} "
             f"answers={case['answers']} passkey={case.get('passkey')} delay={case['delay']} "
-            f"tamper={case.get('tamper')} seed={case['seed']}")
+            f"tamper={case.get('tamper')} seed={case['seed']}"
+            + (f" think={case.get('think')} caller-gives-up={case['giveup']}" if case.get('giveup') else ''))
 
 
 # =============================================================================
@@ -973,13 +1028,38 @@ async def one_pairing(w, case, r, conns, k, prev, last):
     mode = 'sc' if exp_sc else 'legacy'
     iokey = f'io-{IO_NAME[case["io"][C]]}-{IO_NAME[case["io"][P]]}'
 
+    gu = case.get('giveup')
+    gave = {}
+
     async def do_pair():
+        task = None
         try:
-            await conns[C].pair()
+            if gu and gu['after'] > 0:
+                # the application waits that long and no longer
+                await asyncio.wait_for(conns[C].pair(), gu['after'])
+            elif gu:
+                # the application's task is cancelled after a few loop turns (between two protocol messages)
+                task = asyncio.ensure_future(conns[C].pair())
+                for _ in range(-gu['after']):
+                    if task.done():
+                        break
+                    await asyncio.sleep(0)
+                if not task.done():
+                    gave['cancelled'] = True
+                    task.cancel()
+                await task
+            else:
+                await conns[C].pair()
             return ('ok', None)
         except ProtocolError as e:
             return ('failed', e.error_code)
+        except asyncio.TimeoutError:
+            gave['running'] = not (outcome[C] or outcome[P])
+            return ('gave-up', 'wait_for expired')
         except asyncio.CancelledError:
+            if gave.get('cancelled') and task is not None and task.cancelled():
+                gave['running'] = not (outcome[C] or outcome[P])
+                return ('gave-up', 'task cancelled')
             raise
         except Exception as e:
             return ('raised', f'{type(e).__name__}: {e}')
@@ -1058,12 +1138,21 @@ async def one_pairing(w, case, r, conns, k, prev, last):
     in_use = [v for v in (users.displayed[C], users.displayed[P], users.entered[C], users.entered[P]) if v is not None]
     cls = 'passkey-zero' if (0 in in_use) else what   # 000000 is a class of its own, whatever else happened
     sfx = f'/{cls}' if cls else ''
+    gave_up = res[0] == 'gave-up'
+    if gave_up:
+        # the caller stopped waiting; what it would have been told is no longer observable, the events and stores are
+        sfx += '/caller-gave-up'
+        r.ev('caller_gave_up_cases')
+        r.ev(f'caller_gave_up_{"after-seconds" if gu["after"] > 0 else "after-loop-turns"}')
+        if gave.get('running'):
+            r.ev('caller_gave_up_while_exchange_running')
+            r.ev(f'caller_gave_up_while_exchange_running_{mode}')
     if hang:
         r.bad(f'hang/pair/{mode}/{exp_model}{sfx}', f'pair() still pending after {vloop.T_V} virtual s; responder={fin[P]} '
               f'wire={an.codes[-6:]}; {desc}')
     r.ev(f'outcome_{fin[C]}_{fin[P]}')
     # API result vs the initiator's own events
-    r.check(hang or (res[0] == 'ok') == (fin[C] == 'paired'), f'pairing/api-vs-event/{mode}/{exp_model}',
+    r.check(hang or gave_up or (res[0] == 'ok') == (fin[C] == 'paired'), f'pairing/api-vs-event/{mode}/{exp_model}',
             f'pair() -> {res} but the initiator connection reported {outcome[C]}; {desc}')
     r.check(res[0] != 'raised', f'pairing/pair-raised-unexpected/{mode}',
             f'pair() raised {res[1]}; {desc}')
@@ -1075,12 +1164,20 @@ async def one_pairing(w, case, r, conns, k, prev, last):
         r.check(agree, f'pairing/outcome-disagree/{mode}/{exp_model}{sfx}',
                 f'initiator: pair()={res} events={fin[C]}; responder: {fin[P]}; refusals={users.refusals} '
                 f'tampered={tampered} wire tail={an.codes[-8:]}; {desc}')
-    paired = agree and fin[C] == 'paired' and res[0] == 'ok'
+    paired = agree and fin[C] == 'paired' and (res[0] == 'ok' or gave_up)
     failed = fin[C] != 'paired' and fin[P] != 'paired' and res[0] != 'ok'
     if paired:
         r.ev('paired_both')
     if agree and fin[C] == 'failed':
         r.ev('failed_both')
+    if gave_up and gave.get('running'):
+        if paired:
+            r.ev('caller_gave_up_then_paired_both')
+        elif agree:
+            r.ev('caller_gave_up_then_failed_both')
+        # whichever way it ended, nobody is left in between: no prompt stays open, both sessions are over
+        r.check(not (users.pending[C] or users.pending[P]), f'pairing/prompt-never-answered/{mode}/{exp_model}/caller-gave-up',
+                f'prompts still open 60 s after the caller gave up: initiator {users.pending[C]} responder {users.pending[P]}; {desc}')
     if negative:
         r.ev('negative_cases')
         r.ev(f'negative_{what}')
@@ -1854,7 +1951,8 @@ LEVEL_TEXT = ('Two real bumble devices pair over the virtual LE link: all 5x5x{l
               'Key per association model, reconnection in same and swapped roles after bonding, OOB and SMP over BR/EDR; '
               'the whole table again with the link Peripheral as SMP initiator and via Security Request, with delegates '
               'that refuse what their IO capability cannot do; every answer of every model given late (seconds / loop '
-              'turns) by either user; further pairings on the same connection after a failed or a completed one; bond '
+              'turns) by either user; the caller of pair() giving up (wait_for timeout / cancellation) while a user still '
+              'thinks, the exchange going on to success or refusal without it; further pairings on the same connection after a failed or a completed one; bond '
               'histories (2-3 bonds of different kinds, link roles kept or swapped, different key distributions) on one '
               'pair of stores (JsonKeyStore on a file, a merging serialising store, MemoryKeyStore, mixed) followed by a '
               'reconnection in both role assignments that must use one shared key, the latest bond\'s. '
